@@ -3,6 +3,7 @@ module verif/harness
 go 1.26.8
 
 require (
+	github.com/corestario/kyber v1.6.0
 	github.com/herumi/bls-eth-go-binary v0.0.0-20210917013441-d37c07cfda4e
 	github.com/labstack/echo/v4 v4.9.0
 	github.com/lidofinance/dc4bc v0.0.0
@@ -16,7 +17,6 @@ require (
 	github.com/aead/chacha20 v0.0.0-20180709150244-8b13a72661da // indirect
 	github.com/censync/go-dto v1.0.6 // indirect
 	github.com/censync/go-validator v1.0.0 // indirect
-	github.com/corestario/kyber v1.6.0 // indirect
 	github.com/ferranbt/fastssz v0.1.1 // indirect
 	github.com/golang/snappy v0.0.4 // indirect
 	github.com/google/go-cmp v0.5.9 // indirect
